@@ -1155,6 +1155,8 @@ def arg_cases():
         {"tool": "diff", "argv": ["@F", "@D/missing.yaml"], "stdin": None, "why": "missing file"},
         {"tool": "diff", "argv": ["@M", "@F"], "stdin": None, "why": "multi-document source without index"},
         {"tool": "diff", "argv": ["-L", "5", "@M", "@F"], "stdin": None, "why": "document index too high"},
+        {"tool": "diff", "argv": ["-L", "-5", "@M", "@F"], "stdin": None, "why": "document index before the first document"},
+        {"tool": "diff", "argv": ["-R", "-3", "@F", "@M"], "stdin": None, "why": "document index before the first document"},
         {"tool": "validate", "argv": [], "stdin": None, "why": "no file, TTY stdin"},
         {"tool": "validate", "argv": ["-S"], "stdin": "a: 1\n", "why": "--nostdin and no file"},
         {"tool": "validate", "argv": ["-", "-"], "stdin": "a: 1\n", "why": "two - pseudo-files"},
